@@ -31,6 +31,12 @@ struct PGen<'a> {
 impl<'a> PGen<'a> {
     fn var(&mut self, depth: usize) -> Cell {
         self.counter += 1;
+        // with a custom ellipsis, "..." is an ordinary identifier and may be a pattern variable
+        if self.ellipsis != "..." && self.rng.chance(1, 6) && !self.vars.iter().any(|v| v.0 == "...") {
+            self.features.insert("pattern:three-dots-as-variable-under-custom-ellipsis");
+            self.vars.push(("...".to_string(), depth));
+            return sym("...");
+        }
         let n = format!("v{}", self.counter);
         self.vars.push((n.clone(), depth));
         sym(&n)
@@ -43,7 +49,15 @@ impl<'a> PGen<'a> {
                 self.features.insert("literal");
                 sym(&self.rng.pick(&self.literals).clone())
             }
-            2 => int(self.rng.range(0, 3)),
+            2 => {
+                self.features.insert("pattern:constant");
+                match self.rng.usize(6) {
+                    0 => Cell::String((*self.rng.pick(&["s", "a", "2"])).to_string()),
+                    1 => Cell::Char('a'),
+                    2 => Cell::Bool(self.rng.bool()),
+                    _ => int(self.rng.range(0, 3)),
+                }
+            }
             _ => self.var(depth),
         }
     }
@@ -288,6 +302,38 @@ fn form_from(t: &Transformer, p: &Cell, rng: &mut Rng) -> Cell {
             let items: Vec<&Cell> = v.iter().collect();
             Cell::Vector(seq_from(t, &items, rng, &is_e))
         }
+        // at the position of a pattern datum: the datum itself, or (one time in four) a look-alike of
+        // another type that is displayed the same way and must NOT match
+        other if rng.chance(1, 4) => match other {
+            Cell::String(x) => match rng.usize(3) {
+                0 => sym(x),
+                1 if x.chars().count() == 1 => Cell::Char(x.chars().next().unwrap()),
+                _ => match x.parse::<i64>() {
+                    Ok(n) => int(n),
+                    Err(_) => sym(x),
+                },
+            },
+            Cell::Char(c) => {
+                if rng.bool() {
+                    sym(&c.to_string())
+                } else {
+                    Cell::String(c.to_string())
+                }
+            }
+            Cell::Number(n) => match rng.usize(3) {
+                0 => Cell::String(format!("{}", n)),
+                1 => Cell::Number(marwood::number::Number::Float(format!("{}", n).parse::<f64>().unwrap_or(0.0))),
+                _ => other.clone(),
+            },
+            Cell::Bool(b) => {
+                if *b {
+                    sym("#t-ish")
+                } else {
+                    Cell::Nil
+                }
+            }
+            _ => other.clone(),
+        },
         other => other.clone(),
     }
 }
@@ -416,7 +462,7 @@ fn reference(t: &Transformer, use_form: &Cell) -> Expansion {
     t.expand(use_form)
 }
 
-const PRIORITY: [&str; 25] = [
+const PRIORITY: [&str; 27] = [
     "invalid:ellipsis-after-non-ellipsis-variable",
     "invalid:ellipsis-after-constant",
     "invalid:variable-without-enough-ellipses",
@@ -439,6 +485,8 @@ const PRIORITY: [&str; 25] = [
     "template:ellipsis",
     "pattern:ellipsis",
     "template:variable-twice",
+    "pattern:three-dots-as-variable-under-custom-ellipsis",
+    "pattern:constant",
     "custom-ellipsis",
     "literal",
     "several-rules",
